@@ -24,7 +24,7 @@ CONSTANTS ValOrd,    \* validators in address (store) order, e.g. <<"v0","v1","v
           DenOrd,    \* all denoms in byte order (alliance assets and reward denoms)
           BondDenom, \* the staking denom
           \* which repairs of DESIGN.md section 7 the tree under test contains (the model describes the code as it is)
-          FixF1, FixF2, FixF4, FixF5, FixF6, FixF7, FixN1, FixN3
+          FixF1, FixF2, FixF4, FixF5, FixF6, FixF7, FixN1, FixN3, FixK11
 
 Pos(sq, x) == IF \E i \in DOMAIN sq : sq[i] = x THEN CHOOSE i \in DOMAIN sq : sq[i] = x ELSE 0
 
@@ -82,16 +82,19 @@ PoolSkip(s, info, a) ==
 PoolEligible(s, info) == {a \in DOMAIN s.assets : ~PoolSkip(s, info, a)}
 StakedRewardWeight(s, info, a) ==
   LET asset == s.assets[a] IN DQuoInt(DMul(asset.weight, ValTokens(asset, info, a)), asset.total)
-PoolPanics(s, v) ==
+\* every eligible asset's staked reward weight is zero (weight zero, or a fraction of the asset below 10^-18)
+PoolWeightless(s, v) ==
   LET info == Info(s, v)
       el == PoolEligible(s, info)
   IN  /\ ~IsEmptyMap(info.dshares)
       /\ el # {}
       /\ IsZero(BSum(el, LAMBDA a : StakedRewardWeight(s, info, a)))
+\* FixK11: the repaired tree returns early (the coins stay in the module account) instead of dividing by zero
+PoolPanics(s, v) == ~FixK11 /\ PoolWeightless(s, v)
 
 AddToPool(s, v, coins) ==
   LET info == Info(s, v)
-  IN  IF IsEmptyMap(info.dshares) THEN s                \* rewards belong to no one: coins stay where they are
+  IN  IF IsEmptyMap(info.dshares) \/ PoolWeightless(s, v) THEN s                \* rewards belong to no one: coins stay where they are
       ELSE
         LET el    == PoolEligible(s, info)
             total == BSum(el, LAMBDA a : StakedRewardWeight(s, info, a))
@@ -552,11 +555,14 @@ DecayLoop(s, as) ==
     IN  IF ~DecayDue(asset, s.now) THEN DecayLoop(s, Tail(as))
         ELSE
           LET n == (s.now - asset.lastChg) \div asset.chgInt
-              w2 == Clamp(DMul(asset.weight, DPow(asset.rate, n)), asset.wmin, asset.wmax)
+              pw == DPow(asset.rate, n)
+              w2 == Clamp(DMul(asset.weight, pw), asset.wmin, asset.wmax)
               new == [take |-> asset.take, weight |-> w2, rate |-> asset.rate, chgInt |-> asset.chgInt,
                       lastChg |-> asset.lastChg + asset.chgInt * n, wmin |-> asset.wmin, wmax |-> asset.wmax]
               r == UpdateAsset([s EXCEPT !.flag = TRUE], a, new)
-          IN  IF ~r.ok THEN r ELSE DecayLoop(r.s, Tail(as))
+          IN  \* the power is computed before the result is clamped to the range: it overflows for a rate above one and many intervals
+              IF Overflow(pw) \/ Overflow(DMul(asset.weight, pw)) THEN Fail("panic: Int overflow", s)
+              ELSE IF ~r.ok THEN r ELSE DecayLoop(r.s, Tail(as))
 AssetSeq(s) == SortBy(DOMAIN s.assets, LAMBDA a : <<DenIdx(a)>>)
 \* the hook works on the asset list read before InitAssets/TakeRate mutated it in place, which is the same
 \* data because those steps mutate the shared in-memory copies
